@@ -137,13 +137,16 @@ def eval_geom(g, surf_side, cell_in):
     return any(eval_geom(x, surf_side, cell_in) for x in g[1])
 
 
+DEFAULT_FEATURES = frozenset({
+    "transforms", "periodic", "boundary", "universes", "complements", "thermal", "data_placement", "shortcuts", "message",
+})
+
+
 def generate(rng, ncells=None, features=None):
     """features: optional set restricting what may appear, from
     {"transforms","periodic","boundary","universes","lattice","complements","thermal","data_placement","shortcuts","message","trcl"}
     ("lattice", "lat_simple" and "trcl" are not in the default set; "lat_simple" = lattice cells filled with one universe)"""
-    F = features if features is not None else {
-        "transforms", "periodic", "boundary", "universes", "complements", "thermal", "data_placement", "shortcuts", "message",
-    }
+    F = features if features is not None else DEFAULT_FEATURES
     ncells = ncells or rng.randint(2, 7)
     nsurf = rng.randint(3, 8)
     nmat = rng.randint(1, 3)
@@ -212,6 +215,11 @@ def generate(rng, ncells=None, features=None):
         if rng.random() < 0.4:
             c["vol"] = fnum(rng, positive=True)
         cells.append(c)
+    if len(mode) > 1 and rng.random() < 0.3:
+        # all particles share their importances (so that one entry imp:n,p can give them)
+        for c in cells:
+            for p in mode:
+                c["imp"][p] = c["imp"][mode[0]]
     if universes:
         # the last cells live in universes; earlier cells may be filled with them
         members = cells[len(cells) // 2:]
@@ -355,7 +363,11 @@ def cards(gp, rng, redundant=0.15, shortcuts=True):
         d.append({"words": [("*" if t["star"] else "") + f"tr{t['number']}"] + [spell(rng, x, False) for x in t["vals"]], "params": [], "dollar": None})
     d.append({"words": ["mode"] + gp["mode"], "params": [], "dollar": None})
     cs = gp["cells"]
-    if place["imp"] == "data":
+    vectors = [[c["imp"][p] for c in cs] for p in gp["mode"]]
+    if place["imp"] == "data" and len(gp["mode"]) > 1 and all(v == vectors[0] for v in vectors) and rng.random() < 0.75:
+        # one input for all particles: imp:n,p 1 1 0
+        d.append({"words": ["imp:" + ",".join(gp["mode"])] + [spell(rng, x, False) for x in vectors[0]], "params": [], "dollar": None})
+    elif place["imp"] == "data":
         for p in gp["mode"]:
             d.append({"words": [f"imp:{p}"] + _compress(rng, [c["imp"][p] for c in cs], shortcuts)[: len(cs)] or [f"imp:{p}"], "params": [], "dollar": None})
             if len(d[-1]["words"]) == 1:
